@@ -145,6 +145,16 @@ CLAIMED = {
             'printer configurations x comment capture x G1/G2 programs and chained multi-file streams.',
             'Trusted: Lean kernel, translators, unparser model (tie S3), ES5 line counting of the judge. Multi-file layout fragments: '
             'known finding KF-08c.', 'DESIGN.md §6 C08'),
+    'C07': ('Lean 4 proof of the name-generator and remap-table invariants (fresh, non-reserved names; per-scope tables one-to-one '
+            'and outside the reserved set, by mutual induction over the scope tree); scope-tree / remap-table / fragment-stream '
+            'correspondence; binding-structure judge with an independent ES5 scope resolver written in Lean',
+            'generated_not_reserved, generator_fresh, remap_tables_capture_free, top_level_unchanged hold for every charset, skip '
+            'set, prewalk state and flag combination. NOT proved (tie + judge only): the resolve-level injectivity '
+            '(remap_injective_visible), only_identifiers_change and the link to ES5 binding (binding_preserved); the judge compares '
+            'Spec.Scope bindings of original and output occurrence by occurrence on generated scope-heavy programs (60-3000 names) '
+            'for all flag combinations and rule compositions.',
+            'Trusted: Lean kernel, standard axioms, translator g_obfdata.py, Spec.Scope as a reading of ES5 chapter 10, obfuscation '
+            'model tied by S7/S4. Known findings KF-07a..d.', 'DESIGN.md §6 C07'),
     'C17': ('Lean 4 kernel decision (decide +kernel) of equality of the three regenerated LALR table sets and lexer rule lists, '
             'lifted to all inputs by a generic theorem about the LR driver model; cross-configuration differential tie',
             'The tables of the three configurations (generated modules / in-memory unoptimised / regenerated by optimize.reoptimize) '
